@@ -140,10 +140,40 @@ def comb(draw):
     return dict(family='comb', ra=[pts[i][0] for i in order], dec=[pts[i][1] for i in order], L=L, chunksize=draw(st.sampled_from([None, None, 5.0 * L, 8.0 * L])))
 
 
+def corner_points(case):
+    """round 11: many isolated points on the corners of the chunk grid (within the linking length of an RA boundary and of a declination
+    edge: each belongs to four chunks and gets a provisional label in each), then a linked pair further north that straddles a slice edge.
+    The grid is read from the package for the same extent (two anchors near the poles fix it)."""
+    from pydl.pydlutils.spheregroup import chunks
+    L = case['L']
+    ra, dec = [0.5, 359.5], [-82.0, 82.0]
+    c = chunks(np.array(ra + [180.0]), np.array(dec + [0.0]), 4.0 * L)
+    db = np.asarray(c.decBounds, dtype='f8')
+    row = int(np.argmin(np.abs(db - case['dec_row'])))
+    row = min(max(row, 1), len(db) - 12)
+    rab = np.asarray(c.raBounds[row], dtype='f8')
+    eps = 0.01 * L
+    for k in range(2, min(2 + 2 * case['nfill'], len(rab) - 1), 2):
+        ra.append(float(rab[k] + eps))
+        dec.append(float(db[row] + (eps if (k // 2) % 2 else -eps)))
+    edge = float(db[row + case['rows_up']])
+    ra += [case['pair_ra'], case['pair_ra']]
+    dec += [edge + 0.5 * L, edge + (0.5 + case['gap']) * L]
+    return ra, dec
+
+
+@st.composite
+def corners(draw):
+    return dict(family='corner-fillers', L=draw(st.sampled_from([1.0, 0.7, 1.5])), nfill=draw(st.integers(20, 44)), dec_row=draw(st.sampled_from([0.0, -12.0, 20.0])),
+                rows_up=draw(st.integers(2, 10)), pair_ra=draw(st.sampled_from([200.0, 17.3, 301.0])), gap=draw(st.sampled_from([0.7, 0.95, 1.3])), ra=[], dec=[], chunksize=None)
+
+
 @st.composite
 def case_strategy(draw):
     if draw(st.integers(0, 11)) == 0:
         return draw(comb())
+    if draw(st.integers(0, 24)) == 0:
+        return draw(corners())
     L = 10 ** (draw(st.one_of(st.integers(-35, 12), st.integers(-70, -35), st.integers(-35, 19))) / 10.0) * (1 + 0.1 * draw(G.unitf))     # 1e-7 .. 87 deg
     which = draw(st.integers(0, 7))
     if which == 0:
@@ -262,6 +292,8 @@ def seam_ulp_cases(tier):
 def body(case):
     from pydl.pydlutils.spheregroup import spheregroup
     ra, dec = np.array(case['ra']), np.array(case['dec'])
+    if case['family'] == 'corner-fillers':
+        ra, dec = [np.array(v) for v in corner_points(case)]
     if case['family'] == 'integer-arrays':
         ra, dec = ra.astype('i8'), dec.astype('i8')
     n = len(ra)
